@@ -31,6 +31,7 @@ def rules(ctx):
     c105(ctx)
     c106(ctx)
     c107(ctx)
+    c108(ctx)
 
 
 BUILDERS = {
@@ -727,3 +728,129 @@ def _tuple_field_of(f, op, ix):
         rv = ds[0][1]["rv"]
         op = rv.get("a") if rv["r"] != "ref" else {"k": "copy", "pl": rv["pl"]}
     return False
+
+
+def _brief(f, op, tc=False):
+    out = set()
+    for q in P.origins(f, op, through_calls=tc):
+        if q["k"] == "call":
+            out.add("call:" + q["callee"].rsplit("::", 1)[-1])
+        elif q["k"] == "param":
+            out.add("param:%d" % q["i"])
+        elif q["k"] == "field":
+            out.add("field:" + q["f"])
+        elif q["k"] == "const":
+            out.add("const")
+        else:
+            out.add(q["k"])
+    return out
+
+
+def c108(ctx):
+    """How the block cursor walks entries.  Each decoded entry is rebuilt on top of the key of the entry immediately before it in the same
+    restart interval, at the offset where that entry ended; stepping into the next interval goes through the restart point.  A cursor
+    that feeds extract_key a different key, offset or interval index decodes another key than the one written."""
+    R = "C10.8"
+    ctx.declare(R, "the block cursor decodes each entry at the previous entry's end offset, on top of the previous entry's key")
+    EK = r"sst::block::BlockCursor::extract_key$"
+    f = ctx.fn(R, "sst::block::BlockCursor::extract_key")
+    if f:
+        aggs = [((b.idx, j), st) for b in f.blocks for j, st in enumerate(b.st)
+                if st["s"] == "=" and st["rv"]["r"] == "agg" and st["rv"].get("variant") == "Positioned" and "CursorPosition" in st["rv"].get("adt", "")]
+        ctx.floor(R, "Positioned aggregates in extract_key", len(aggs), 1)
+        for sp, st in aggs:
+            fl = dict(zip(st["rv"]["fields"], st["rv"]["ops"]))
+            ctx.check(R, f, "position-restart_idx", _brief(f, fl["restart_idx"]) == {"param:2"}, "restart_idx is the interval given", "the position's restart_idx is not the restart_idx argument", pt=sp)
+            ctx.check(R, f, "position-offset", _brief(f, fl["offset"]) == {"param:3"}, "offset is the offset decoded at", "the position's offset is not the offset argument", pt=sp)
+            ctx.check(R, f, "position-key", K.root_local(f, fl["key"]) == 4, "key is the previous key after truncate + extend", "the position's key is not the rebuilt key buffer", pt=sp)
+            ctx.check(R, f, "position-timestamp", "call:timestamp" in _brief(f, fl["timestamp"]), "timestamp is the entry's", "the position's timestamp is not the decoded entry's", pt=sp)
+            # next_offset = restarts_boundary - remaining bytes of the unpacker over bytes[offset..restarts_boundary]
+            ok = False
+            for q in P.origins(f, fl["next_offset"], through_calls=False):
+                if q["k"] == "bin" and q["st"]["rv"]["op"] in ("Sub", "SubWithOverflow"):
+                    a, b = q["st"]["rv"]["a"], q["st"]["rv"]["b"]
+                    lens = [x for x in P.origins(f, b, through_calls=False) if x["k"] == "call" and x["callee"].endswith("::len")]
+                    ok = "field:restarts_boundary" in _brief(f, a) and bool(lens) and all("call:remain" in _brief(f, x["t"]["args"][0]) for x in lens)
+            ctx.check(R, f, "position-next_offset", ok, "next_offset = restarts_boundary - unpacker.remain().len()", "next_offset is not the end of the decoded entry", pt=sp)
+        for pt in ctx.calls(R, f, r"buffertk::Unpacker::new$"):
+            ok = False
+            for q in P.origins(f, P.term_at(f, pt)["args"][0], through_calls=False):
+                if q["k"] == "call" and q["callee"].endswith("index"):
+                    for r_ in P.origins(f, q["t"]["args"][1], through_calls=False):
+                        if r_["k"] == "agg" and r_.get("adt", "").endswith("range::Range"):
+                            lo, hi = r_["st"]["rv"]["ops"]
+                            ok = _brief(f, lo) == {"param:3"} and "field:restarts_boundary" in _brief(f, hi)
+            ctx.check(R, f, "decode-window", ok, "the entry is decoded from bytes[offset..restarts_boundary]", "the entry is not decoded from bytes[offset..restarts_boundary]", pt=pt)
+    f = ctx.fn(R, "<sst::block::BlockCursor as sst::Cursor>::next")
+    if f:
+        for pt in ctx.calls(R, f, EK):
+            a = P.term_at(f, pt)["args"]
+            ctx.check(R, f, "next-interval", _brief(f, a[1]) == {"call:restart_idx"}, "next stays in the current restart interval", "next decodes under a different restart index", pt=pt)
+            ctx.check(R, f, "next-offset", _brief(f, a[2]) == {"call:next_offset"}, "next decodes at the current entry's end offset", "next does not decode at next_offset()", pt=pt)
+            kb = _brief(f, a[3])
+            ctx.check(R, f, "next-prev-key", "call:take" in kb or "call:replace" in kb or "call:clone" in kb or "call:swap" in kb,
+                      "next rebuilds on top of the current entry's key", "next does not hand the current key to extract_key", pt=pt)
+            for q in P.origins(f, a[3], through_calls=False):
+                if q["k"] == "call" and q["callee"].rsplit("::", 1)[-1] in ("take", "replace", "clone"):
+                    ctx.check(R, f, "next-prev-key-source", "key" in K.arg_field_names(f, q["pt"], 0), "the key taken is the position's key field",
+                              "the buffer handed on is not the position's key", pt=q["pt"])
+        # crossing into the next interval goes through its restart point, exactly when that restart point is at or before the offset
+        sr = [p for p in P.call_points(f, r"BlockCursor::seek_restart$") if "const" not in _brief(f, P.term_at(f, p)["args"][1])]
+        ctx.floor(R, "next: seek_restart(restart_idx + 1)", len(sr), 1)
+        for pt in sr:
+            good = False
+            for g in K.compare_guards(f, pt):
+                a, b, op = g["a"], g["b"], g["op"]
+                if not g["holds"]:
+                    op = {"Lt": "Ge", "Le": "Gt", "Gt": "Le", "Ge": "Lt"}.get(op, op)
+                if op in ("Ge", "Gt"):
+                    a, b, op = b, a, {"Ge": "Le", "Gt": "Lt"}[op]
+                if op == "Le" and "call:restart_point" in _brief(f, a) and _brief(f, b) == {"call:next_offset"}:
+                    good = True
+            ctx.check(R, f, "interval-crossing", good, "the next interval is entered when restart_point(restart_idx + 1) <= next_offset",
+                      "the step into the next restart interval is not guarded by restart_point(restart_idx + 1) <= next_offset", pt=pt)
+    f = ctx.fn(R, "sst::block::BlockCursor::seek_restart")
+    if f:
+        for pt in ctx.calls(R, f, EK):
+            a = P.term_at(f, pt)["args"]
+            ctx.check(R, f, "restart-interval", _brief(f, a[1]) == {"param:2"}, "seek_restart decodes under the restart index given", "seek_restart decodes under another restart index", pt=pt)
+            ctx.check(R, f, "restart-offset", _brief(f, a[2]) == {"call:restart_point"} and
+                      any(_brief(f, q["t"]["args"][1]) == {"param:2"} for q in P.origins(f, a[2], through_calls=False) if q["k"] == "call"),
+                      "seek_restart decodes at restart_point(restart_idx)", "seek_restart does not decode at the restart point of its index", pt=pt)
+    f = ctx.fn(R, "sst::block::BlockCursor::cache_restart")
+    if f:
+        eks = ctx.calls(R, f, EK)
+        pu = ctx.calls(R, f, r"alloc::vec::Vec::push$")
+        heads = [h for h in eks if P.reach(f, P.after(f, h), [h])]
+        ctx.check(R, f, "cache-loop", len(heads) == 1, "the interval is decoded in one loop", "cannot identify the decode loop of cache_restart")
+        for pt in heads:
+            a = P.term_at(f, pt)["args"]
+            ctx.check(R, f, "cache-interval", _brief(f, a[1]) == {"param:2"}, "cached positions carry the interval's index", "cache_restart decodes under another restart index", pt=pt)
+            ob = _brief(f, a[2])
+            ctx.check(R, f, "cache-offset-chain", "call:restart_point" in ob and "field:next_offset" in ob and not (ob - {"call:restart_point", "field:next_offset", "field:0", "call:branch"}),
+                      "the decode offset starts at the restart point and continues at each decoded entry's next_offset", "the decode offsets of cache_restart are not restart_point, next_offset, next_offset, ... (%s)" % sorted(ob), pt=pt)
+            kb = _brief(f, a[3])
+            ctx.check(R, f, "cache-key-chain", "call:new" in kb and "call:clone" in kb, "the key buffer starts empty and continues as a copy of each decoded key",
+                      "cache_restart does not chain the decoded keys (%s)" % sorted(kb), pt=pt)
+            for q in P.origins(f, a[3], through_calls=False):
+                if q["k"] == "call" and q["callee"].endswith("::clone"):
+                    ctx.check(R, f, "cache-key-source", "key" in K.arg_field_names(f, q["pt"], 0), "the key copied is the decoded position's key", "the key carried forward is not the decoded position's key", pt=q["pt"])
+            # every Positioned result is recorded: from the decode to the next decode, push is passed (Last/First leave the loop)
+            byp = P.reach(f, P.after(f, pt), [pt], avoid=set(pu) | set(P.error_points(f)))
+            ctx.check(R, f, "cache-records-all", bool(pu) and byp is None, "every decoded position is recorded before the next one is decoded", "a decoded position can be left out of the reverse cache", pt=pt, path=byp)
+    f = ctx.fn(R, "<sst::block::BlockCursor as sst::Cursor>::prev")
+    if f:
+        cr = ctx.calls(R, f, r"BlockCursor::cache_restart$")
+        # the cached position chosen is the one that ends where the current entry starts
+        found = False
+        work = list(ctx.prog.closures_of(f))
+        while work:
+            g = work.pop()
+            work.extend(ctx.prog.closures_of(g))
+            for b in g.blocks:
+                for st in b.st:
+                    rv = st.get("rv", {})
+                    if st["s"] == "=" and rv.get("r") == "bin" and rv["op"] == "Eq":
+                        if "field:next_offset" in (_brief(g, rv["a"]) | _brief(g, rv["b"])):
+                            found = True
+        ctx.check(R, f, "prev-match", found, "prev picks the cached position whose next_offset equals the current offset", "prev no longer matches cached positions by next_offset == target")
